@@ -1,6 +1,7 @@
 package main
 
 import (
+	"reflect"
 	"encoding/json"
 	"fmt"
 	"math/rand"
@@ -50,6 +51,7 @@ func runC03(r *rep.Report, thorough bool) error {
 	o.Risky = true
 	cases := genCases(rng, n, "t", o)
 	cases = append(cases, synth.HandWritten()...)
+	cases = append(cases, synth.KnownDefects()...)
 	l, err := load.Cases(cases)
 	if err != nil {
 		return err
@@ -293,6 +295,17 @@ func c03Shape(a *analysed, ln gorun.Line) string {
 	}
 	if ln.Case != "" && missingWrapper(a, wrapperSets(a, "")) != "" {
 		return ":wrapper-not-generated-behind-anonymous-container"
+	}
+	// an embedded struct of an UNEXPORTED type named by its json tag: encoding/json writes the key,
+	// the analysis drops the (unexported) field
+	for _, d := range a.Env.Decls {
+		for _, f := range d.Fields {
+			if f.Embedded && !f.GoExported {
+				if name, _, _ := strings.Cut(reflect.StructTag(f.Tag).Get("json"), ","); name != "" && name != "-" {
+					return ":embedded-unexported-struct-named-by-its-tag"
+				}
+			}
+		}
 	}
 	for _, d := range a.Env.Decls {
 		for _, f := range d.Fields {
